@@ -391,6 +391,7 @@ const EDGE_TEXTS: &[&str] = &[
     ".\"\\u{41}\"", ".\"\\u{}\"", ".\"\\u{110000}\"", ".\"\\u{d800}\"", ".\"\\u{0000000041}\"", ".\"\\u{41\"", ".\"\\u41\"",
     ".\"\\\n  x\"", ".\"a\nb\"", ".\"{{a}}\"", ".\"{{ a }}\"", ".\"{{  a  }}\"", ".\"a{{b\"", ".\"{{}}\"", ".\"{{ }}\"", ".\"\\{{a\\}}\"",
     ".\"\\{{a}}\"", ".\"{{a\\}}\"", ".\"a\\\\{{b}}\"", ".\"x{{a}}y{{b}}z\"", ".\"{{a}}}\"", ".\"{a}\"", ".\"}}\"", ".\"{{ \\\" }}\"",
+    ".\"\\\\}}\"", ".\"\\\\\\\\}}\"", ".\"\\\\{{\"", ".\"a\\\\}}b\"", ".\"a}}\"",
     ".\"{\"", ".\"{{{a}}}\"", ".\"\\}}\"", ".\"a\\{b\"", "%\"{{x}}\"", ".a.\"{{ x }}\"[0]", ".\"é\"", ".é", ".\"🤖\".b", "a", "0", "\"a\"",
     "[0]", "[.a]", "{.a}", "(.a)", "!.a", "-.a", ".a,", ".a?", ".a ?? 0", ".a\n", "\n.a", ".a;", ".a # c", "# c\n.a",
 ];
